@@ -129,6 +129,17 @@ func init() {
 			rows = append(rows, "  ("+LeanStr(k.name)+", "+LeanStrList(c)+", "+LeanStrList(r)+", "+LeanStrList(s)+")")
 		}
 		o.Lean.WriteString(strings.Join(rows, ",\n") + "]\n\n")
+		// the production entry points: what each event handler does from the constructor call on, in source order
+		hf := o.ParseFile("chains/evm/listener/eventHandlers/tss.go")
+		o.Lean.WriteString("/-- event handlers of chains/evm/listener/eventHandlers/tss.go: from the process constructor on, in source order:\n    new (NewKeygen/NewResharing) | execute (coordinator.Execute) | stop (a Stop call) | ret (a return) -/\n")
+		o.Lean.WriteString("def handlers : List (String × List String) := [\n")
+		hrows := []string{}
+		for _, recv := range []string{"KeygenEventHandler", "FrostKeygenEventHandler", "RefreshEventHandler"} {
+			ev := handlerEvents(FindFunc(hf, recv, "HandleEvents"))
+			o.Facts["handler:"+recv] = ev
+			hrows = append(hrows, "  ("+LeanStr(recv)+", "+LeanStrList(ev)+")")
+		}
+		o.Lean.WriteString(strings.Join(hrows, ",\n") + "]\n\n")
 		// the coordinator: does the refusal branch stop the processes, does the deferred block
 		refusal, deferred := execFacts(o)
 		o.Lean.WriteString("/-- `Coordinator.Execute`: the duplicate-refusal branch calls Stop on the processes -/\n")
@@ -331,4 +342,55 @@ func unlockedAccesses(o *Out) []string {
 		}
 	}
 	return out
+}
+
+// handlerEvents: calls and returns of a HandleEvents body in source order, from the first process constructor on.
+func handlerEvents(fd *ast.FuncDecl) []string {
+	if fd == nil || fd.Body == nil {
+		return []string{"?missing"}
+	}
+	ev := []string{}
+	started := false
+	var visit func(n ast.Node)
+	visit = func(n ast.Node) {
+		ast.Inspect(n, func(m ast.Node) bool {
+			switch x := m.(type) {
+			case *ast.FuncLit:
+				if started {
+					ev = append(ev, "?closure")
+				}
+				return false
+			case *ast.ReturnStmt:
+				for _, r := range x.Results {
+					visit(r)
+				}
+				if started {
+					ev = append(ev, "ret")
+				}
+				return false
+			case *ast.CallExpr:
+				for _, a := range x.Args {
+					visit(a)
+				}
+				switch selName(x) {
+				case "NewKeygen", "NewResharing", "NewSigning":
+					started = true
+					ev = append(ev, "new")
+				case "Execute":
+					if started {
+						ev = append(ev, "execute")
+					}
+				case "Stop":
+					if started {
+						ev = append(ev, "stop")
+					}
+				}
+				visit(x.Fun)
+				return false
+			}
+			return true
+		})
+	}
+	visit(fd.Body)
+	return ev
 }
